@@ -62,6 +62,7 @@ type taskSpec struct {
 	yields int
 	panics any
 	goexit bool // the task ends by terminating its goroutine (runtime.Goexit, t.FailNow inside a task)
+	isNil  bool // the Task value pushed is the nil interface (calling it panics inside the worker, like any panicking task)
 }
 
 type push struct{ task, lane int }
@@ -79,6 +80,7 @@ type spec struct {
 	release    bool   // a releaser thread releases pinUntilRelease tasks
 	events     bool   // order task entry against "Wait returned" through the monitor
 	monitorRun bool   // count simultaneously running tasks through a monitor atomic
+	timeout0   bool   // SetTimeout(0) before anything is pushed: a push never waits
 }
 
 type harness struct {
@@ -194,13 +196,20 @@ func body(sp *spec) func(c *vsched.Ctx) {
 		before := len(vsched.Threads())
 		h.tl = tasklane.New(h.ctx, sp.L, sp.Q)
 		h.lane = append(h.lane, vsched.Threads()[before:]...)
+		if sp.timeout0 {
+			h.tl.SetTimeout(0)
+		}
 		if len(h.lane) != 2*sp.L {
 			// not a violation by itself, but the oracles below rely on knowing the lane's goroutines
 			c.Outcome(fmt.Sprintf("lane-threads=%d", len(h.lane)))
 		}
 		runPushes := func(pl []push) {
 			for _, p := range pl {
-				err := h.tl.PushTask(h.tasks[p.task], p.lane)
+				var tk tasklane.Task = h.tasks[p.task]
+				if h.tasks[p.task].sp.isNil {
+					tk = nil
+				}
+				err := h.tl.PushTask(tk, p.lane)
 				h.results[p.task] = err
 				h.pushed[p.task] = true
 			}
@@ -300,6 +309,9 @@ func (h *harness) atEnd(c *vsched.Ctx) string {
 	insideBody := 0
 	var lab []string
 	for i, t := range h.tasks {
+		if t.sp.isNil {
+			continue // nothing of it can be observed; what matters is that the others are still served
+		}
 		if t.enters > 1 {
 			rep(fmt.Sprintf("C06: task %d started %d times", i, t.enters), once...)
 		}
@@ -353,6 +365,9 @@ func (h *harness) atEnd(c *vsched.Ctx) string {
 	// tasks handed to the lane (push returned nil, or the push is still in flight but the task already runs) and not entered
 	handed := 0
 	for i, t := range h.tasks {
+		if t.sp.isNil {
+			continue
+		}
 		if (h.pushed[i] && h.results[i] == nil) || (!h.pushed[i] && t.enters > 0) {
 			handed++
 		}
@@ -399,7 +414,9 @@ func (h *harness) atEnd(c *vsched.Ctx) string {
 	// panicked, then it is C14's "its worker keeps serving" that is at stake
 	starve := []string{"C06", "C08"}
 	if len(panicked) > 0 {
-		starve = []string{"C14"}
+		// a panicked task has ended, so "running tasks return" still holds for C06 and no worker is
+		// busy for C08: all three statements are contradicted
+		starve = []string{"C06", "C08", "C14"}
 	}
 	if !cancelled {
 		// C06 + C08 (+ C14 where tasks panic: "its worker keeps serving"): at rest with a live
@@ -487,6 +504,24 @@ func main() {
 	s7c := &spec{L: 1, Q: 0, tasks: []taskSpec{{panics: "boom"}, {panics: errBoom}}, producers: [][]push{{{0, 0}, {1, 0}}}, polls: 2, pollers: 2}
 	s9 := &spec{L: 1, Q: 1, tasks: []taskSpec{{panics: "boom"}, {yields: 1}, {yields: 1}}, producers: [][]push{{{0, 0}, {1, 0}, {2, 0}}}, monitorRun: true}
 	s9b := &spec{L: 2, Q: 1, tasks: []taskSpec{{panics: 42}, {yields: 1}, {yields: 1}, {yields: 1}}, producers: [][]push{{{0, 0}, {1, 0}, {2, 1}, {3, 0}}}, monitorRun: true}
+	// a nil Task among the tasks: its worker must go on serving
+	s21 := &spec{L: 1, Q: 1, tasks: []taskSpec{{}, {isNil: true}, {}, {}}, producers: [][]push{{{0, 0}, {1, 0}, {2, 0}, {3, 0}}}}
+	s21b := &spec{L: 2, Q: 1, tasks: []taskSpec{{isNil: true}, {pin: pinForever}, {}, {}}, producers: [][]push{{{0, 0}, {1, 1}, {2, 1}, {3, 0}}}, monitorRun: true}
+	// many panics in a row on one lane (wide in time: logs, rings and counters of panics fill up)
+	s20 := &spec{L: 1, Q: 1}
+	{
+		var pl []push
+		for i := 0; i < 1100; i++ {
+			s20.tasks = append(s20.tasks, taskSpec{panics: "boom"})
+			pl = append(pl, push{i, 0})
+		}
+		s20.tasks = append(s20.tasks, taskSpec{}, taskSpec{})
+		pl = append(pl, push{1100, 0}, push{1101, 0})
+		s20.producers = [][]push{pl}
+	}
+	// a push that never waits (timeout 0), begun after the cancellation
+	s5e := &spec{L: 1, Q: 1, tasks: T(2), producers: [][]push{{{0, 0}, {1, 0}}}, cancel: "cancel", wait: true, latePush: true, timeout0: true}
+	s6e := &spec{L: 1, Q: 1, tasks: T(1), producers: [][]push{{{0, 0}}}, cancel: "expire", wait: true, latePush: true, timeout0: true}
 	// three lanes: a busy lane's second task must go to exactly one of the two idle workers
 	s19 := &spec{L: 3, Q: 1, tasks: []taskSpec{{pin: pinForever}, {yields: 1}, {}}, producers: [][]push{{{0, 0}, {1, 0}, {2, 0}}}, monitorRun: true}
 	// a task panics, another one is still running when the context is cancelled: Wait must wait for it
@@ -606,6 +641,16 @@ func main() {
 			Quick: PS(8, b012...), Thorough: PS(16, unb...), Body: body(s18), MinOutcomes: 2},
 		{Name: "s18b-L2Q1-two-panics-then-cancel", Props: []string{"C07"}, About: "a panic on each worker, a third task, cancel at every step, Wait",
 			Quick: D(0, 1, 2, 3), Thorough: DS(16, 0, 2, 4, 6), Body: body(s18b), MinOutcomes: 2},
+		{Name: "s21-L1Q1-nil-task", Props: []string{"C06", "C08"}, About: "a nil Task is pushed between ordinary ones (calling it panics inside the worker): the tasks after it must still be started",
+			Quick: P(b012...), Thorough: PS(16, unb...), Body: body(s21)},
+		{Name: "s21b-L2Q1-nil-task-then-pinned", Props: []string{"C08"}, About: "a nil Task on lane 0, a never-ending task on lane 1, then one task per lane: both must be started by worker 0",
+			Quick: D(0, 1, 2, 3), Thorough: DS(16, 0, 2, 4, 6), Body: body(s21b)},
+		{Name: "s20-L1Q1-1100-panics", Props: []string{"C06", "C08", "C14"}, About: "wide in time: 1100 panicking tasks in a row on one lane, then two ordinary ones, which must still be started",
+			Quick: sdrive.Plan{Delay: true, Wide: true, Bounds: []int{0}}, Thorough: sdrive.Plan{Delay: true, Wide: true, Bounds: []int{0, 1}}, Body: body(s20)},
+		{Name: "s5e-L1Q1-cancel-nowait-push", Props: []string{"C07"}, About: "SetTimeout(0): a push begun after the cancellation must still return the context's error without enqueuing",
+			Quick: P(unb...), Body: body(s5e), MinOutcomes: 2},
+		{Name: "s6e-L1Q1-deadline-nowait-push", Props: []string{"C07"}, About: "as s5e with deadline expiry",
+			Quick: P(unb...), Body: body(s6e), MinOutcomes: 2},
 		{Name: "s8-L2Q1-stable", Props: []string{"C14"}, About: "both workers pinned, three tasks queued: pending count compared exactly at rest",
 			Quick: D(0, 1, 2, 3), Thorough: DS(16, 0, 2, 4, 6, 8), Body: body(s8)},
 	}
